@@ -18,7 +18,7 @@ RULE = ("TLC explores every history of flushes and compaction steps (pick / buil
         "the projected layouts are validated again by TLC (CompactionTrace.tla)")
 
 INVS = ["ReadsMatchTruth", "TruthRetained", "LayoutValid", "NewerAboveOlder", "TypeOK"]
-PROPS = ["CompactionPreservesContents"]
+PROPS = ["CompactionPreservesContents", "OnlyFlushAndSwapChangeLayout"]
 
 BASE = dict(NKeys=3, NLevels=3, Settings={1, 2}, SmallLen=2, BigKey=0, BigLen=0, MaxFlush=3, MaxFlushKeys=3, AllowTombs=True,
             MaxCompact=4, DropTombs=False, Dev_MajorPicksPastPartialLevel=False, Dev_WriteRunEmptyTable=False,
